@@ -64,9 +64,16 @@ pub fn check_spec(spec: &FileSpec, only: Option<&Query>) -> Result<(u64, usize),
     };
     let mut yielded = 0u64;
     let mut both_failed = 0usize;
-    for q in &qs {
+    for (qi, q) in qs.iter().enumerate() {
         let a = run_query(&v1, q);
         let b = run_query(&v2, q);
+        // the V1 file served in short, interrupted pieces answers the same (sampled queries)
+        if qi % 7 == 0 {
+            let a_short = crate::query::run_query_short(&v1, q);
+            if a_short != a {
+                return Err(("differs".into(), format!("{}: the V1 file answers differently when its source serves short and interrupted reads", q.brief()), Some(q.clone())));
+            }
+        }
         if a != b {
             return Err((
                 "differs".into(),
